@@ -190,6 +190,322 @@ def coq_opt(v):
     return 'None' if v is None else '(Some %s)' % core.to_coq(v)
 
 
+# ---------------------------------------------------------------------------
+# composition with the scheduler (Model/SchedChron.v): scheduler histories
+# with the REAL chronicle under an injected clock
+# ---------------------------------------------------------------------------
+
+OUTCOME = {3: 'success', 1: 'failure', 6: 'invalid'}
+SC_TARGETS = [['ta', 'tb'], ['T1', 'T2'], ['Ta', 'tb', 'tc'], ['t1']]
+SC_PREFIX = [['reg', 1, 0, True], ['reg', 2, 1, True], ['reg', 3, 0, True], ['reg', 4, 2, True]]
+
+
+def tk2dt(t):
+    return EPOCH + dt.timedelta(microseconds=t)
+
+
+def sc_clock(rng, n):
+    '''one clock reading per event: starts shortly before a day / month / year
+    boundary; gaps from 0 (same reading twice: tied sort keys) over seconds to
+    more than a day; now and then the clock is set back'''
+    day = dt.datetime(*rng.choice(ANCHORS), tzinfo=dt.UTC)
+    start = day + dt.timedelta(hours=rng.choice([0, 9, 22, 23]), minutes=rng.randrange(60),
+                               seconds=rng.randrange(60))
+    t = (start - EPOCH) // dt.timedelta(microseconds=1)
+    out = []
+    for _ in range(n):
+        out.append(t)
+        r = rng.random()
+        if r < 0.10:
+            gap = 0
+        elif r < 0.20:
+            gap = rng.choice([1, 500, 999999])
+        elif r < 0.70:
+            gap = rng.randrange(1, 900) * 10**6
+        elif r < 0.93:
+            gap = rng.randrange(1, 9 * 3600) * 10**6 + rng.choice([0, 0, rng.randrange(10**6)])
+        elif r < 0.97:
+            gap = rng.randrange(20, 80) * 3600 * 10**6
+        else:
+            gap = -rng.randrange(1, 5 * 3600) * 10**6
+        t += gap
+    return out
+
+
+def sc_queries(rng, clock, nq):
+    lo, hi = min(clock), max(clock)
+    qs = []
+
+    def bound():
+        r = rng.random()
+        if r < 0.6:
+            return rng.choice(clock) + rng.choice([0, 0, 1, -1, 10**6, -10**6, 3600 * 10**6, -3600 * 10**6,
+                                                   7 * 3600 * 10**6, -11 * 3600 * 10**6])
+        return rng.randrange(lo - 2 * 86400 * 10**6, hi + 2 * 86400 * 10**6)
+    for _ in range(nq):
+        now = rng.choice([hi + 1, hi + 1, hi + rng.randrange(1, 40 * 86400 * 10**6), rng.choice(clock)])
+        r = rng.random()
+        if r < 0.45:
+            a, b = bound(), bound()
+            if a > b and rng.random() < 0.9:
+                a, b = b, a
+            q = {'after': a, 'before': b, 'limit': None if rng.random() < 0.8 else rng.randint(0, 3)}
+        elif r < 0.65:
+            q = {'after': None, 'before': bound(), 'limit': rng.choice([None, 1, 2, 3, 50])}
+        elif r < 0.80:
+            q = {'after': None, 'before': None, 'limit': rng.choice([1, 2, 3, 7, 50])}
+        elif r < 0.93:
+            q = {'after': bound(), 'before': None, 'limit': None}
+        else:
+            q = {'after': bound(), 'before': None, 'limit': rng.choice([1, 2, 50])}
+        q['succeeded'] = rng.random() < 0.55
+        q['now'] = now
+        qs.append(q)
+    return qs
+
+
+def sc_cases(ctx, rng, n, nev, nq):
+    import glob
+    import os
+    cases = []
+    for f in sorted(glob.glob(os.path.join(core.VERIF, 'corpus', 'sched', '*.json'))):
+        c = json.load(open(f))
+        # the directed scenarios of the scheduler corpus (incl. the witness of the
+        # open finding C03 reply-dropped), then some generated events
+        cases.append({'seed': c['seed'], 'desc': c['desc'], 'targets': c.get('targets', ['T1', 'T2']),
+                      'events': c['events'], 'extra': 6, 'profile': 'sched'})
+    for i in range(n):
+        cases.append({'seed': '%d:sc:%d' % (ctx.seed, i), 'profile': 'sched' if i % 4 else 'mixed',
+                      'nalg': 6 if i % 3 else 8, 'shape': 'fan' if i % 2 else 'random',
+                      'targets': SC_TARGETS[i % len(SC_TARGETS)],
+                      'events': list(SC_PREFIX) if i % 5 else [], 'extra': nev})
+    for c in cases:
+        c['clock'] = sc_clock(rng, len(c['events']) + c.pop('extra'))
+        c['queries'] = sc_queries(rng, c['clock'], nq)
+    return cases
+
+
+def sc_key(e):
+    return (e['ticks'], e['runid'], e['target'], e['task'])
+
+
+def composition_study(ctx, deep, replay_case=None):
+    '''scheduler histories x real chronicle vs Model/SchedChron.v; oracle = the
+    property on the implementation's own observations (every reply whose job
+    was queued when it arrived has exactly one entry with its data, in reply
+    order per file; nothing else is in the journal; find = brute-force window
+    over those replies)'''
+    from props import sched_common as sc
+    rng = random.Random('%s:C18:schedchron' % ctx.seed)
+    if replay_case is not None:
+        cases = [replay_case]
+    else:
+        cases = sc_cases(ctx, rng, 120 if deep else 30, 70 if deep else 60, 10 if deep else 8)
+    res = ctx.harness('drive_schedchron.py', {'cases': cases})['cases']
+    hist = {'histories': len(cases), 'events': 0, 'replies': 0, 'applied': 0, 'dropped': 0,
+            'entries_success': 0, 'entries_failure': 0, 'entries_invalid': 0, 'files': 0,
+            'files_with_2plus': 0, 'histories_2plus_days': 0, 'tied_clock_entries': 0,
+            'queries': 0, 'queries_nonempty': 0, 'queries_multi_day': 0}
+    nontrivial = []
+    viol = []
+
+    def v(kind, fields, what, replay):
+        viol.append(kind)
+        ctx.violation(kind, fields, what, dict(replay, source='oracle (composition)', study='schedchron'))
+
+    expected = []
+    for case, r in zip(cases, res):
+        r['seed'] = case['seed']
+        g = r['graph']
+        clock = case['clock']
+        tn, tags = g['tnames'], g['tags']
+        rcase = dict(sc.strip(r), clock=clock, queries=[])
+        rep0 = {'case': rcase, 'theorem': 'C18_every_run_recorded_once'}
+        exp, dropped, want_files = [], [], {}
+        hist['events'] += len(r['events'])
+        for i, ev in enumerate(r['events']):
+            if ev[0] != 'rep':
+                continue
+            hist['replies'] += 1
+            x, t, rid, oc = ev[2], ev[3], ev[4], ev[5]
+            if x in r['que_before'][i]:
+                d = tk2dt(clock[i])
+                e = {'id': i, 'ticks': clock[i], 'runid': rid, 'target': tn[t], 'task': tags[x],
+                     'status': OUTCOME[oc]}
+                exp.append(e)
+                want_files.setdefault('%04d/%02d/%02d/%d.json' % (d.year, d.month, d.day, rid), []).append(i)
+                hist['entries_' + OUTCOME[oc]] += 1
+            else:
+                dropped.append(i)
+        expected.append((exp, dropped))
+        hist['applied'] += len(exp)
+        hist['dropped'] += len(dropped)
+        hist['files'] += len(want_files)
+        hist['files_with_2plus'] += sum(len(x) > 1 for x in want_files.values())
+        ndays = len({k[:10] for k in want_files})
+        hist['histories_2plus_days'] += ndays >= 2
+        hist['tied_clock_entries'] += len(exp) - len({e['ticks'] for e in exp})
+        if len(exp) >= 3 and ndays >= 2:
+            nontrivial.append(('sc', str(case['seed'])))
+        # ---- every applied reply recorded exactly once, nothing else ----
+        got = {int(k): val for k, val in r['entries'].items()}
+        for e in exp:
+            recs = got.get(e['id'], [])
+            if not recs:
+                v('run-not-recorded', {'status': e['status']},
+                  'history %s: the reply of event %d (%s on %s, run %d, %s) was applied by the scheduler '
+                  '(its job was queued) but the journal has no entry for it'
+                  % (case['seed'], e['id'], e['task'], e['target'], e['runid'], e['status']),
+                  dict(rep0, step=e['id']))
+                break
+            if len(recs) > 1:
+                v('run-recorded-twice', {'status': e['status']},
+                  'history %s: the reply of event %d has %d journal entries' % (case['seed'], e['id'], len(recs)),
+                  dict(rep0, step=e['id']))
+                break
+            c = recs[0]
+            if (c['runid'], c['status'], c['target'], c['task']) != (e['runid'], e['status'], e['target'], e['task']) \
+                    or dt.datetime.fromisoformat(c['completed']) != tk2dt(e['ticks']) \
+                    or c['keys'] != ['changeset', 'runid', 'status', 'target', 'task', 'timing', 'version']:
+                v('append-content', {'via': 'reply'},
+                  'history %s: the reply of event %d is recorded as %r, the reply says %r at %s'
+                  % (case['seed'], e['id'], c, e, tk2dt(e['ticks']).isoformat()), dict(rep0, step=e['id']))
+                break
+        else:
+            stray = sorted(set(got) - {e['id'] for e in exp})
+            if stray:
+                v('entry-without-run', {'dropped_reply': bool(set(stray) & set(dropped))},
+                  'history %s: journal entries %r belong to no applied reply' % (case['seed'], stray), rep0)
+            elif r['files'] != want_files:
+                v('append-lost', {'via': 'reply-order'},
+                  'history %s: journal files %r, the applied replies in completion order give %r'
+                  % (case['seed'], r['files'], want_files), rep0)
+        # the scheduler reaches chronicle.append exactly for the applied replies
+        for i, ev in enumerate(r['events']):
+            n5 = sum(1 for o in r['outs'][i] if o and o[0] == 5)
+            want5 = 1 if any(e['id'] == i for e in exp) else 0
+            if n5 != want5 and not viol:
+                v('run-not-recorded' if n5 < want5 else 'run-recorded-twice', {'seen_by': 'chronicle.append calls'},
+                  'history %s: event %d %r reached chronicle.append %d times, expected %d'
+                  % (case['seed'], i, ev, n5, want5), dict(rep0, step=i))
+        # ---- find over the journal the scheduler wrote ----
+        byid = {e['id']: e for e in exp}
+        for q, ans in zip(case['queries'], r['answers']):
+            hist['queries'] += 1
+            rep = dict(rep0, case=dict(rcase, queries=[q]), query=q, theorem='C18_find_returns_applied')
+            if 'exc' in ans:
+                v('find-exception', {'exception': ans['exc']}, 'find(%s) raises %s: %s'
+                  % (json.dumps(q), ans['exc'], ans.get('msg')), rep)
+                continue
+            A, B, L = q['after'], q['before'], q['limit']
+            lo = A if A is not None else 0
+            hi = B if B is not None else q['now']
+            st = 'success' if q['succeeded'] else 'failure'
+            full = sorted([e for e in exp if e['status'] == st and lo < e['ticks'] < hi], key=sc_key, reverse=True)
+            if A is not None and B is None and L is not None:
+                continue              # after + limit: outside the property statement (see META note)
+            if A is None and L is not None:
+                want = full[:L] if L > 0 else []
+            else:
+                want = full
+            hist['queries_nonempty'] += bool(want)
+            hist['queries_multi_day'] += len({e['ticks'] // 86400000000 for e in want}) >= 2
+            gotk = [sc_key(byid[i]) if i in byid else None for i in ans['ok']]
+            exact = A is not None or L is None or L >= len(full)
+            if gotk != [sc_key(e) for e in want] or (exact and sorted(ans['ok']) != sorted(e['id'] for e in want)):
+                missing = [e['id'] for e in want if e['id'] not in ans['ok']]
+                v('window-cursor' if missing else 'window-filter',
+                  {'lost_entries': True} if missing else {'extra_entries': True},
+                  'history %s: find(after=%s, before=%s, limit=%r, succeeded=%r) [now=%s] returns the replies '
+                  'of events %r, the applied replies in the window are %r'
+                  % (case['seed'], A and tk2dt(A).isoformat(), B and tk2dt(B).isoformat(), L, q['succeeded'],
+                     tk2dt(q['now']).isoformat(), ans['ok'], [e['id'] for e in want]),
+                  dict(rep, expected=[e['id'] for e in want], observed=ans['ok']))
+    ctx.note('composition_histogram', hist)
+    # ---- the C18 face of the open finding C03 reply-dropped ----
+    ndrop = hist['dropped']
+    if ndrop:
+        what = ('%d replies of units a worker was executing found no job (IndexError in schedule.find, the '
+                'open finding C03 reply-dropped): schedule.complete never ran, the run has no journal entry'
+                % ndrop)
+        if ctx._match_known('run-not-recorded', {'cause': 'reply-dropped'}) is not None:
+            ctx.violation('run-not-recorded', {'cause': 'reply-dropped'}, what, {'source': 'oracle (composition)'})
+        ctx.note('dropped_replies_without_entry',
+                 {'count': ndrop, 'what': what, 'coq': 'C18_dropped_reply_unrecorded',
+                  'known_finding': 'C03 reply-dropped (known_findings.json has no C18 entry for it: '
+                                   'noted here, not a verdict)'})
+    if replay_case is None:
+        ctx.expect_known('reply-dropped-unrecorded', bool(ndrop))
+        if not ndrop and not viol:
+            ctx.broken('the witness of the open finding C03 reply-dropped no longer leaves a reply without '
+                       'journal entry: model (faithful to the finding) and code have diverged',
+                       'corpus/sched/c03_duplicate_flight_after_purge.json produced no dropped reply',
+                       {'source': 'correspondence', 'study': 'schedchron'})
+    # ---- RUN-MODEL + DIFF ----
+    pre = ('Open Scope nat_scope.\n'
+           'Definition qout (r : Chron.result) : list Z := match r with Chron.Ok l => 0%Z :: map e_id l '
+           '| Chron.ValueError => [1%Z] | Chron.OutOfFuel => [2%Z] end.\n'
+           'Definition study (tc : nat -> Z) (c : cfg) (tes : list tev) (qs : journal -> list (list Z)) :=\n'
+           '  let j := snd (sc_boot tc zc c tes) in\n'
+           '  (jfiles j, jentries j, dropped c (init c) 0%Z tes, '
+           'map e_id (applied tc zc c (init c) 0%Z tes), qs j).\n')
+    exprs = []
+    codes = []
+    for case, r in zip(cases, res):
+        tn = r['graph']['tnames']
+        rank = {n: k for k, n in enumerate(sorted(tn))}
+        codes.append(rank)
+        tc = '(fun t => nth t [%s] 0%%Z)' % '; '.join('(%d)%%Z' % rank[n] for n in tn)
+        tes = '[' + '; '.join('((%d)%%Z, %s)' % (case['clock'][i], sc.ev_term(e))
+                              for i, e in enumerate(r['events'])) + ']'
+        qs = '; '.join('qout (Chron.find greg j %s %s %s %s %s)' % (
+            coq_opt(q['after']), coq_opt(q['before']), coq_opt(q['limit']),
+            'true' if q['succeeded'] else 'false', core.to_coq(q['now'])) for q in case['queries'])
+        exprs.append('study %s %s %s (fun j => [%s])' % (tc, sc.cfg_term(r['graph']), tes, qs))
+    try:
+        mres = ctx.coq_eval(['DV.Model.Chron', 'DV.Model.Sched', 'DV.Model.SchedChron'], exprs,
+                            preamble=pre, chunk=4, z_scope=False)
+    except core.CoqEvalError as e:
+        if not viol:
+            ctx.broken('model evaluation of Model/SchedChron.v failed', str(e.args[-1])[-2000:],
+                       {'source': 'correspondence', 'study': 'schedchron'})
+        return nontrivial, hist
+    for case, r, (exp, dropped), rank, (mfiles, ments, mdropped, mapplied, mans) in zip(
+            cases, res, expected, codes, mres):
+        mf = {}
+        for d, rid, ids in mfiles:
+            date = dt.date(1980, 1, 1) + dt.timedelta(days=d)
+            mf['%04d/%02d/%02d/%d.json' % (date.year, date.month, date.day, rid)] = ids
+        tags = r['graph']['tags']
+        ie = sorted([int(k), (dt.datetime.fromisoformat(c['completed']) - EPOCH) // dt.timedelta(microseconds=1),
+                     c['runid'], rank.get(c['target'], -1), tags.index(c['task']) if c['task'] in tags else -1,
+                     STATUS.get(c['status'], -1)] for k, cs in r['entries'].items() for c in cs)
+        idrop = [i for i, o in enumerate(r['outs']) if any(x and x[0] == 6 for x in o)]
+        ians = [[0] + a['ok'] if 'ok' in a else [1] if a['exc'] == 'ValueError' else [9, a['exc']]
+                for a in r['answers']]
+        diffs = [(n, m, i) for n, m, i in (('journal files', mf, r['files']), ('entries', sorted(ments), ie),
+                                           ('dropped replies', mdropped, idrop),
+                                           ('applied replies', mapplied, [e['id'] for e in exp]),
+                                           ('find answers', mans, ians)) if m != i]
+        if diffs and not viol:
+            n, m, i = diffs[0]
+            qq = case['queries']
+            if n == 'find answers':
+                k = [a != b for a, b in zip(m, i)].index(True)
+                n, m, i, qq = 'find answer to %s' % json.dumps(case['queries'][k]), m[k], i[k], [case['queries'][k]]
+            ctx.broken('correspondence: scheduler x chronicle (%s) vs Model.SchedChron' % n.split(' to ')[0],
+                       'history %s: %s: model=%r python=%r' % (case['seed'], n, m, i),
+                       {'source': 'correspondence', 'study': 'schedchron',
+                        'case': dict(sc.strip(r), clock=case['clock'], queries=qq),
+                        'expected': m, 'observed': i})
+            break
+    if replay_case is None:
+        ctx.sample({'composition_history': {'seed': cases[-1]['seed'], 'events': res[-1]['events'][:10],
+                                            'clock': [tk2dt(t).isoformat() for t in cases[-1]['clock'][:10]],
+                                            'journal_files': res[-1]['files']}})
+    return nontrivial, hist
+
+
 def run(ctx):
     ctx.cov['rule'] = (
         'random histories of 3..22 appends (through chronicle.append with a '
@@ -235,6 +551,14 @@ def run(ctx):
     ncase = 220 if deep else 40
     nq = 24 if deep else 14
     cases = [WITNESS] + [gen_case(rng, nq, big=deep and i % 4 == 0) for i in range(ncase)]
+    if ctx.replay and json.load(open(ctx.replay)).get('study') == 'schedchron':
+        # a replay of the composition study (scheduler history x real chronicle)
+        R = json.load(open(ctx.replay))
+        ctx.note('replayed', ctx.replay)
+        ctx.count(evaluations=1, nontrivial_keys=[('replay', 1), ('replay', 2)])
+        if ctx.coq_props()['ok'] and 'clock' in R.get('case', {}):
+            composition_study(ctx, deep, replay_case=R['case'])
+        return
     if ctx.replay:
         # re-execute the single case of a replay file through the same pipeline
         R = json.load(open(ctx.replay))
@@ -469,6 +793,10 @@ def run(ctx):
                     'expected': mo, 'observed': o})
     ctx.count(evaluations=sum(len(c['queries']) + len(c['appends']) for c in cases),
               nontrivial_keys=nontrivial)
+    # ---- COMPOSITION with the scheduler (Model/SchedChron.v) ---------------------
+    if not found and not ctx.replay:
+        sc_nontrivial, sc_hist = composition_study(ctx, deep)
+        ctx.count(evaluations=sc_hist['events'] + sc_hist['queries'], nontrivial_keys=sc_nontrivial)
     ctx.sample({'appends': cases[1]['appends'][:3], 'query': cases[1]['queries'][0],
                 'answer': impl[1]['answers'][0]})
     ctx.sample({'witness_answers': impl[0]['answers']})
